@@ -301,3 +301,82 @@ Section Static3.
     forallb (fun vd => not_repr (vd_name vd)) vdsM &&
     forallb (rfield3_static_b k) ds.
 End Static3.
+
+(* ---- fuel: every selection list a plan tree executes (recursively) ---- *)
+Fixpoint pt_need (sc : schema) (pt : ptree) : nat :=
+  match pt with
+  | PT items fetches =>
+    Nat.max (fuel_bound sc (pt_proj pt) + 10)
+      (Nat.max (fuel_bound sc (pt_client pt) + 10)
+         (Nat.max (fold_right Nat.max O (map (fun j => (fuel_bound sc (src_proj j items fetches) + 10)%nat) (seq 1 (length fetches))))
+            ((fix go (l : list (nat * pitem)) : nat :=
+                match l with
+                | [] => O
+                | (_, it) :: r => Nat.max (match it with PDown _ _ _ _ _ sub => pt_need sc sub | PKeep _ => O end) (go r)
+                end) items)))
+  end.
+Definition item_need (sc : schema) (it : pitem) : nat :=
+  Nat.max (fuel_bound sc [item_proj it] + 10) (Nat.max (fuel_bound sc [item_client it] + 10)
+    (match it with PDown _ _ _ _ _ sub => pt_need sc sub | PKeep _ => O end)).
+Definition ds_need (sc : schema) (ds : list rfield3) : nat :=
+  Nat.max (fuel_bound sc (map (fun d => item_proj (r3_item d)) ds) + 10)
+    (Nat.max (fuel_bound sc (map (fun d => item_client (r3_item d)) ds) + 10)
+       (fold_right Nat.max O (map (fun d => item_need sc (r3_item d)) ds))).
+
+(* (U5') list-typed fields hold lists, in every entity *)
+Definition lists_ok_b (sc : schema) (U : universe) : bool :=
+  forallb (fun e => match find_type (en_type e) (s_types sc) with
+                    | Some td => forallb (fun fd => negb (is_list_ty (fd_type fd)) ||
+                                                    match field_fval {| ov_ent := e; ov_repr := None |} (fd_name fd) with
+                                                    | FLst _ => true | _ => false end) (td_fields td)
+                    | None => true
+                    end) U.
+Definition univ3_contract_b (sc : schema) (subs : list schema) (decls : list (name * list name)) (rdecls : list rdecl) (U : universe) : bool :=
+  univ_contract_b sc decls rdecls subs U && lists_ok_b sc U.
+
+(* ---- the statements of the induction over plan trees ---- *)
+Section Spec3.
+  Variable U : universe.
+  Variables (sc : schema) (subs : list schema) (vdsM : list vardef) (supM : list (bytes * json)).
+  Variables (f2 kq : nat).
+  Variable tn : bool.
+  Variable decls : list (name * list name).
+  Variable rdecls : list rdecl.
+  Notation vars := (pvars vdsM supM).
+
+  (* monolithic execution on an entity *)
+  Definition mex (C : nat) (T : name) (e : entity) (sels : list selection) (p : list pel) : sres :=
+    exec_sels sc U [] vars Mono C T {| ov_ent := e; ov_repr := None |} sels p.
+
+  (* what filling does to the one-member result of a [PDown] field *)
+  Definition tr3 (k : nat) (key : name) (sh : fshape) (T' : name) (sub : ptree) (r : sres) : sres :=
+    match r with
+    | (Some [(_, v)], e0) =>
+      let x := vres_sres key (lift U sc subs [] vdsM supM f2 tn k sh T' sub v) in (fst x, e0 ++ snd x)
+    | _ => r
+    end.
+
+  (* POSITION: the object of an entity [e] as its source returned it (projection), filled, is the object the monolith
+     returns for the client's selection; a projection that is already null makes the client's selection null *)
+  Definition PS_at (k : nat) : Prop :=
+    forall (T : name) (pt : ptree) (e : entity) (p : list pel),
+      pt_static_b sc subs [] vdsM supM kq decls rdecls k T pt = true ->
+      In e U -> en_type e = T ->
+      (pt_need sc pt <= f2)%nat ->
+      match mex f2 T e (pt_proj pt) p with
+      | (Some l1, e1) =>
+        fst (fill U sc subs [] vdsM supM f2 tn k T pt l1) = fst (mex f2 T e (pt_client pt) p) /\
+        (e1 ++ snd (fill U sc subs [] vdsM supM f2 tn k T pt l1) = [] <-> snd (mex f2 T e (pt_client pt) p) = [])
+      | (None, _) => fst (mex f2 T e (pt_client pt) p) = None
+      end.
+
+  (* FIELD: a composite field with fetches below it; [q] is the path the source was executed at *)
+  Definition FL_at (k : nat) : Prop :=
+    forall (T : name) (e : entity) (a : option name) (n : name) (args : list argument) (sh : fshape) (T' : name) (sub : ptree)
+           (p q : list pel),
+      item_static_b sc subs [] vdsM supM kq decls rdecls k T (PDown a n args sh T' sub) = true ->
+      In e U -> en_type e = T ->
+      (item_need sc (PDown a n args sh T' sub) <= f2)%nat ->
+      sres_weq (tr3 k (response_name a n) sh T' sub (mex f2 T e [SField a n args [] (pt_proj sub)] q))
+               (mex f2 T e [SField a n args [] (pt_client sub)] p).
+End Spec3.
